@@ -145,6 +145,78 @@ pub fn big_history_program(target: u64, salt: u64) -> Vec<Op> {
     ops
 }
 
+/// Three-way agreement of the reference model (interpreter / encoder+decoder /
+/// liblzma) on one case. Err(text) = harness problem.
+pub fn reference_check(
+    c: &Case,
+    st: &mut LocalStats,
+) -> Result<(Vec<u8>, crate::refmodel::enc::EncodedLzma, Option<u64>), String> {
+    let eff = effective_dict(c.container, c.dict);
+    let expected = match interpret(&c.ops, eff) {
+        Ok(o) => o,
+        Err(e) => return Err(format!("generated program invalid: {:?}", e)),
+    };
+    let enc = encode_lzma(c.props, &c.ops, c.term.marker_len());
+    if enc.hist != expected {
+        return Err("encoder history != interpreter output".into());
+    }
+    let size = if c.term.has_size() {
+        Some(expected.len() as u64)
+    } else {
+        None
+    };
+    match decode_lzma(c.props, eff, size, &enc.payload, expected.len() + (1 << 20)) {
+        Ok((out, r, table)) => {
+            if out != expected {
+                return Err(format!(
+                    "reference decoder != interpreter: {}",
+                    first_diff(&out, &expected)
+                ));
+            }
+            let want_consumed = match c.term {
+                Term::Both(_) if enc.table.len() >= 2 => {
+                    enc.table[enc.table.len() - 2].consumed as usize
+                }
+                Term::Both(_) => 5,
+                _ => enc.payload.len(),
+            };
+            if r.consumed != want_consumed {
+                return Err(format!(
+                    "reference decoder consumed {} of {} (want {})",
+                    r.consumed,
+                    enc.payload.len(),
+                    want_consumed
+                ));
+            }
+            let n = table.len().min(enc.table.len());
+            if table[..n] != enc.table[..n] {
+                return Err("per-symbol tables differ (enc vs ref dec)".into());
+            }
+        }
+        Err(e) => return Err(format!("reference decoder rejects own stream: {:?}", e)),
+    }
+    #[cfg(feature = "liblzma")]
+    if c.props.lc + c.props.lp <= 4 {
+        let lib = crate::ffi_liblzma::raw_lzma1(
+            c.props,
+            (eff.min(u32::MAX as u64)) as u32,
+            size,
+            &enc.payload,
+            expected.len() + (1 << 20),
+        );
+        if !lib.ok() || lib.out != expected {
+            return Err(format!(
+                "liblzma disagrees with reference model: ret={} {}",
+                lib.ret,
+                first_diff(&lib.out, &expected)
+            ));
+        }
+        st.class("liblzma-second-opinion");
+    }
+    let _ = st;
+    Ok((expected, enc, size))
+}
+
 impl Property for C01 {
     type Abs = Abs;
     type Case = Case;
@@ -248,70 +320,10 @@ impl Property for C01 {
 
     fn judge(&self, c: &mut Case, st: &mut LocalStats) -> Judgement {
         let eff = effective_dict(c.container, c.dict);
-        let expected = match interpret(&c.ops, eff) {
-            Ok(o) => o,
-            Err(e) => return Judgement::HarnessBug(format!("generated program invalid: {:?}", e)),
+        let (expected, enc, size) = match reference_check(c, st) {
+            Ok(x) => x,
+            Err(e) => return Judgement::HarnessBug(e),
         };
-        let enc = encode_lzma(c.props, &c.ops, c.term.marker_len());
-        if enc.hist != expected {
-            return Judgement::HarnessBug("encoder history != interpreter output".into());
-        }
-        let size = if c.term.has_size() {
-            Some(expected.len() as u64)
-        } else {
-            None
-        };
-        // reference decoder must agree (three-way agreement)
-        match decode_lzma(c.props, eff, size, &enc.payload, expected.len() + (1 << 20)) {
-            Ok((out, r, table)) => {
-                if out != expected {
-                    return Judgement::HarnessBug(format!(
-                        "reference decoder != interpreter: {}",
-                        first_diff(&out, &expected)
-                    ));
-                }
-                let want_consumed = match c.term {
-                    Term::Both(_) if enc.table.len() >= 2 => {
-                        enc.table[enc.table.len() - 2].consumed as usize
-                    }
-                    Term::Both(_) => 5,
-                    _ => enc.payload.len(),
-                };
-                if r.consumed != want_consumed {
-                    return Judgement::HarnessBug(format!(
-                        "reference decoder consumed {} of {} (want {})",
-                        r.consumed,
-                        enc.payload.len(),
-                        want_consumed
-                    ));
-                }
-                let n = table.len().min(enc.table.len());
-                if table[..n] != enc.table[..n] {
-                    return Judgement::HarnessBug("per-symbol tables differ (enc vs ref dec)".into());
-                }
-            }
-            Err(e) => {
-                return Judgement::HarnessBug(format!("reference decoder rejects own stream: {:?}", e))
-            }
-        }
-        #[cfg(feature = "liblzma")]
-        if c.props.lc + c.props.lp <= 4 {
-            let lib = crate::ffi_liblzma::raw_lzma1(
-                c.props,
-                (eff.min(u32::MAX as u64)) as u32,
-                size,
-                &enc.payload,
-                expected.len() + (1 << 20),
-            );
-            if !lib.ok() || lib.out != expected {
-                return Judgement::HarnessBug(format!(
-                    "liblzma disagrees with reference model: ret={} {}",
-                    lib.ret,
-                    first_diff(&lib.out, &expected)
-                ));
-            }
-            st.class("liblzma-second-opinion");
-        }
 
         // ---- system under test
         let run_sut = |dict: u32| -> sut::Run {
